@@ -5,6 +5,7 @@ import re
 import xml.etree.ElementTree as ET
 from .common import *
 from cpv.graph import field_writers
+from cpv.ceval import Evaluator, Unknown
 
 CLS = "JUnitTestOutput"
 SAFE_SOURCES = {"GetPlatformSpecificTimeString": "time stamp produced by the platform (digits, '-', ':', 'T')"}
@@ -265,7 +266,7 @@ def check(ctx, run):
         run.ob("R4", "a new case node is appended and filled on path [%s]" % p.describe(st), st.site, ok, witness={"assigned": a, "strings": oc})
     pf = methods["printFailure"]
     for p in enumerate_paths(pf):
-        inc = [n for e in p.trace if isinstance(e, int) for n in [pf.nodes[e]] if n["k"] == "UnaryOperator" and n.get("op") == "++" and render(pf, n["c"][0]).endswith("failureCount_")]
+        inc = [d for d in deltas_on_path(pf, p, "failureCount_") if d == 1]
         sto = [l for l, r, n in assignments(pf, p) if l.endswith("->failure_")]
         val = p.val()
         first = [v for k, v in val.items() if k.endswith("->failure_")]
@@ -323,16 +324,28 @@ def check(ctx, run):
     forb = set("".join(lits))
     miss = sorted(FNAME_FORBIDDEN - forb)
     run.ob("R5", "forbidden set covers / \\ : * ? \" < > |", ef.site, not miss, witness="".join(sorted(forb)), what="" if not miss else "not replaced: %s" % miss)
-    reps = [c for c in ef.calls() if prog.callee_name(ef, c) == "SimpleString::replace"]
-    loops = loop_blocks(ef)
-    ok = len(reps) == 1 and ef.where_enclosing(reps[0]) and ef.where_enclosing(reps[0])[0] in loops
-    if ok:
-        a = ef.args(reps[0])
-        ok = render(ef, a[0]).startswith("*") and render(ef, a[1]) == "'_'"
-        obj = render(ef, ef.node(reps[0].get("obj")))
-        rets = [render(ef, ef.node(n.get("value"))) for n in ef.walk() if n["k"] == "ReturnStmt"]
-        ok = ok and rets == [obj]
-        # loop: for (sym = forbidden; *sym; ++sym)
-        conds = [atom(ef, ef.nodes[b["cond"]])[0] for b in ef.blocks.values() if b.get("cond") is not None and b["id"] in loops]
-        ok = ok and any(cn.startswith("*") for cn in conds)
-    run.ob("R5", "every forbidden character is replaced by '_' in the returned copy (loop to the terminating NUL)", ef.site, bool(ok), witness=[render(ef, r) for r in reps])
+    def fold_encode(text):
+        def repl(ev_, key, frm, to):
+            v = ev_.env.get(key)
+            if not (isinstance(v, tuple) and v[0] == "str" and isinstance(frm, int) and isinstance(to, int)):
+                return None
+            ev_.env[key] = ("str", v[1].replace(chr(frm & 0xFF), chr(to & 0xFF)))
+            return 0
+        repl.wants_ev = True
+        ev = Evaluator(prog, ef, env={ef.params[0]["name"]: ("str", text)}, calls=string_hooks({"SimpleString::replace": repl}))
+        ev.pass_object = "key"
+        ev.run_blocks(ef.entry, max_steps=3000)
+        return getattr(ev, "ret", None)
+    bad = None
+    try:
+        for text in ("plain_name-1.cpp", "a/b\\c:d*e?f\"g<h>i|j", "////", "", "x%y", "dir/sub/test name.c"):
+            got = fold_encode(text)
+            want_min = "".join("_" if ch in FNAME_FORBIDDEN else ch for ch in text)
+            gt = got[1] if isinstance(got, tuple) and got[0] == "str" else None
+            # every forbidden character replaced; characters outside the implementation's own set untouched
+            okc = gt is not None and len(gt) == len(text) and all((g == "_" if c in FNAME_FORBIDDEN else (g == c or (g == "_" and c in forb))) for c, g in zip(text, gt))
+            if not okc and bad is None:
+                bad = "encodeFileName(%r) folds to %r, expected %r" % (text, gt if gt is not None else got, want_min)
+    except Unknown as u:
+        run.broke("C16.R5: encodeFileName cannot be folded: %s" % u)
+    run.ob("R5", "encodeFileName folded: every forbidden character is replaced by '_' in the returned copy, other characters are kept", ef.site, bad is None, witness=bad or "6 names", what=bad or "")
